@@ -21,6 +21,18 @@ def plan(tier, seed):
         slices += tok_slices('err', g, 'lalr', L + 1, ['member', 'errpos'], 0.07, budget, complete=g not in ('expr', 'dangling', 'rr_prio'))
     for g in corpus.tok_names('cnf_ok'):
         slices += tok_slices('err', g, 'cyk', L, ['member'], 0.15, budget)
+    # text level, dynamic Earley lexers: class, position (= the last token-complete viable boundary) and exact continuation sets
+    TK = {'lines': 8, 'letx': 9, 'collide': 5, 'ign2': 5, 'nulltxt': 6, 'dotall': 7, 'opttail': 6}
+    for g, k in TK.items():
+        for lexer in ('dynamic', 'dynamic_complete'):
+            Lt = 3 if quick else 4
+            npaths = sum(k ** n for n in range(Lt + 1))
+            pins = [None] if npaths * 0.1 <= budget else list(range(k))
+            for pin in pins:
+                est = (npaths if pin is None else npaths / k) * 0.1
+                slices.append({'id': 'txt:%s:%s:L%d%s' % (g, lexer, Lt, '' if pin is None else ':pin%d' % pin), 'module': 'vfw.harness.txt', 'mode': 'realised',
+                               'params': {'g': g, 'parser': 'earley', 'lexer': lexer, 'L': Lt, 'asserts': ['member', 'errpos'], 'pin': pin, 'mode': 'realised'},
+                               'timeout': int(est * 2.5 + 40), 'twin': pin in (None, k - 1), 'bound': {'chars': Lt, 'classes': k}})
     meta = {
         'rule': 'one path per viable token prefix plus one rejecting extension; every rejection is checked for class, first-offending-token position and '
                 'expected/accepts sets against the reference viable-prefix / next-terminal computation',
@@ -29,7 +41,7 @@ def plan(tier, seed):
                               'lark.parsers.lalr_parser._Parser.parse_from_state', 'lark.exceptions.UnexpectedToken.accepts',
                               'lark.parsers.lalr_interactive_parser.InteractiveParser.accepts', 'lark.parser_frontends.CYK_FrontEnd'],
         'bounds': {'tokens': L, 'grammars': len(corpus.TOK)},
-        'outside_bounds': ['grammars with unproductive rules', 'longer inputs'],
+        'outside_bounds': ['grammars with unproductive rules', 'longer inputs', 'UnexpectedCharacters positions of the basic/contextual lexers (covered by C07 lex error positions)'],
         'stubs_and_assumes': ['tokens supplied by the documented custom-lexer interface; positions are token indices'],
     }
     return {'slices': slices, 'meta': meta}
